@@ -131,6 +131,11 @@ def run(case, ctx):
             blocks[(k, p)] = jnp.asarray(vals.reshape((L,) + inner).astype(np.float32))
         mis.append(geom.MultiImage(blocks, D, True))
         layouts.append({str(t): list(v.shape) for t, v in blocks.items()})
+    # identical operands: the very same object may be co-batched with itself (inputs == targets of an auto-encoder)
+    if rng.integers(0, 5) == 0:
+        mis.append(mis[0])
+        layouts.append(layouts[0])
+        n_mi += 1
     arg = mis[0] if (n_mi == 1 and rng.integers(0, 2)) else tuple(mis)
     keyd = {"L": L, "B": B, "ndev": ndev, "key": key_kind, "D": D, "layouts": layouts}
     viols = []
